@@ -3,7 +3,7 @@
   machine `Gedcom.Cache.step` under the flags regenerated from the Go source.
 
     c13 <forest> ops <op> ; <op> ; …        (flags of the current tree)
-    c13f <17 bits> <forest> ops …           (explicit flags, for counterexample replay)
+    c13f <20 bits> <forest> ops …           (explicit flags, for counterexample replay)
 
   Nodes are addressed by position (root index, child indices) in the *current* document, so the
   two sides never exchange ids.  Observations name nodes by position too: `0.2.1`, `n` = nil,
@@ -170,6 +170,13 @@ def runOp (fl : Flags) (s : St) (toks : List String) : St × String :=
     | some p, some h, some w => stepShow (.addFamilyHW p h w)
     | _, _, _ => (s, "bad-op")
   | ["dd", r] => stepShow (.docDelete (root r))
+  | "ds" :: m :: is => match m.toNat?, parseNats is with
+    | some m, some is =>
+      if is.length != m then (s, "bad-op") else
+      match is.mapM (fun i => a.roots[i]?) with
+      | some ks => stepShow (.docSetNodes ks)
+      | none => (s, "bad")
+    | _, _ => (s, "bad-op")
   | ["sh", f, i] => match optIdx s i with
     | some i => stepShow (.setHusband (root f) i)
     | none => (s, "bad-op")
@@ -228,7 +235,8 @@ def runHistory (fl : Flags) (toks : List String) : String :=
 
 def flagsOfBits (bits : String) : Option Flags :=
   match bits.toList.map (· == '1') with
-  | [a, b, c, d, e, f, g, h, i, j, k, l, m, n, o, p, q] => some ⟨a, b, c, d, e, f, g, h, i, j, k, l, m, n, o, p, q⟩
+  | [a, b, c, d, e, f, g, h, i, j, k, l, m, n, o, p, q, r, t, u] =>
+    some ⟨a, b, c, d, e, f, g, h, i, j, k, l, m, n, o, p, q, r, t, u⟩
   | _ => none
 
 /-- requests about cache coherence (C13) -/
@@ -248,7 +256,8 @@ def handleCache (cmd : String) (rest : List String) : Option String :=
       f.docDeleteResetsIndividuals, f.addIndividualResetsIndividuals, f.addFamilyResetsFamilies,
       f.familyAddResetsCaches, f.familyDeleteResetsCaches, f.familySetNodesResetsCaches,
       f.setHusbandPointerClearsCache, f.setWifePointerClearsCache, f.deleteNodesWithTagCopies,
-      f.warningsReadOnly].map fun b => if b then '1' else '0'))
+      f.warningsReadOnly, f.docSetNodesRebuildsPointers, f.docSetNodesClearsFamilies,
+      f.docSetNodesResetsIndividuals].map fun b => if b then '1' else '0'))
   | _ => none
 
 end Driver
